@@ -41,7 +41,7 @@ def buffersJ (b : Buffers) : Json := objJ [
 def full3J (x : List (List (List LogP))) : Json := listJ (listJ (listJ lpJ)) x
 
 /-- case: {V, sos, dicts: [[{key, logp, logb?}..]..], B, hist: [[..]..] (T rows of B),
-chunks: [c..], idxs: [[i..]..]}.
+chunks: [c..], idxs: [[i..]..], view?: {storage: [..], off, sT, sB}}.
 Reply: {build: null | buffers, shape, full, chunk_agree: [bool], byidx_agree, idx: [rows..],
 spec_full} -/
 def c06Table : Handler := fun c => do
@@ -59,8 +59,17 @@ def c06Table : Handler := fun c => do
     let shapeJ := match shape with
       | none => Json.null
       | some (n, g, s) => objJ [("N", natJ n), ("G", natJ g), ("S", natJ s)]
-    let full := fullChunked b V sos B hist 1
-    let chunkAgree := chunks.map (fun ch => decide (fullChunked b V sos B hist ch = full))
+    -- memory layout of `hist` (absent: the contiguous row-major buffer)
+    let view ← match fieldOpt c "view" with
+      | none => pure ({ storage := hist.flatten, off := 0, sT := B, sB := 1, T := hist.length, B := B } : View)
+      | some vj => do
+        let st ← getIntList vj "storage"
+        pure ({ storage := st, off := (← getNat vj "off"), sT := (← getNat vj "sT"),
+                sB := (← getNat vj "sB"), T := hist.length, B := B } : View)
+    let viewOk := decide (view.rows = hist)
+    let full := fullChunkedView b V sos view 1
+    let chunkAgree := chunks.map (fun ch => decide (fullChunkedView b V sos view ch = full))
+    let flatAgree := decide (fullChunked b V sos B hist 1 = full)
     let byIdx := decide (fullByIdx b V sos B hist = full)
     let idxRes := idxs.map (fun hidx => calcIdx b V sos B hist hidx)
     -- the oracle: Katz recursion on the raw table, raw contexts
@@ -73,6 +82,8 @@ def c06Table : Handler := fun c => do
     pure (objJ [
       ("build", buffersJ b), ("shape", shapeJ), ("full", full3J full),
       ("chunk_agree", listJ boolJ chunkAgree), ("byidx_agree", boolJ byIdx),
+      ("view_rows_ok", boolJ viewOk), ("view_contig", boolJ view.isContig),
+      ("flat_agree", boolJ flatAgree),
       ("idx", listJ (listJ (listJ lpJ)) idxRes),
       ("spec_full", listJ (listJ (listJ optJ')) specFull)])
 
